@@ -46,7 +46,8 @@ static void* verif_copy(void* dst, const void* src, size_t n, _Bool must_not_ove
   if (!__CPROVER_same_object(d, g_r->mBuffer) || !__CPROVER_same_object(s, g_r->mBuffer)) { g_content_broken = 1; return dst; }
   size_t dc = (size_t)(d - g_r->mBuffer), sc = (size_t)(s - g_r->mBuffer);
   /* the moved cells must all be valid; afterwards the valid cells are exactly the moved block at its new place */
-  if (sc >= g_vlo && sc + n <= g_vhi && sc >= dc) { g_lo = g_lo + sc - dc; g_vlo = dc; g_vhi = dc + n; } else g_content_broken = 1;
+  /* cells that were valid and are moved keep their stream bytes at the new place; everything else in the destination range becomes unknown */
+  { size_t a = sc > g_vlo ? sc : g_vlo, b = sc + n < g_vhi ? sc + n : g_vhi; if (sc >= dc && a < b) { g_lo = g_lo + sc - dc; g_vlo = a - (sc - dc); g_vhi = b - (sc - dc); } else if (sc >= dc) { g_vlo = g_vhi = 0; } else g_content_broken = 1; }
   return dst;
 }
 #define VERIF_MEMCPY(d, s, n) verif_copy(d, s, n, 1)
